@@ -637,6 +637,85 @@ fn main() {
             fastrace::verif::set_hook(None);
             extra = json!({"rounds": 36, "worst_wait_in_report_intervals": worst_intervals});
         }
+        "many-busy-queues-cancelable" => {
+            // between two collector cycles ten threads queue 10000 commands each (no queue is ever
+            // full); a child of the watched trace finishes on a thread registered after all of
+            // them, then its root finishes: the trace must come out whole however much the
+            // collector has to drain first
+            let rep = Rep::default();
+            fastrace::set_reporter(rep.clone(), Config::default().cancelable(true).report_interval(Duration::from_secs(3600)));
+            std::thread::sleep(Duration::from_millis(30));
+            let mut whole = 0;
+            for round in 0..3u128 {
+                let root = Span::root("watched-root", SpanContext::new(TraceId(0xa000 + round), SpanId(1)));
+                let hs: Vec<_> = (0..10u128)
+                    .map(|w| {
+                        std::thread::spawn(move || {
+                            let r = Span::root("busy", SpanContext::new(TraceId(0xb000 + round * 100 + w), SpanId(1)));
+                            for _ in 0..4_990 {
+                                // two commands each: nothing near the 10240 slots of one queue
+                                r.add_event(Event::new("x"));
+                                r.add_event(Event::new("y"));
+                            }
+                            drop(r);
+                        })
+                    })
+                    .collect();
+                for h in hs {
+                    h.join().unwrap();
+                }
+                let child = Span::enter_with_parent("watched-child", &root);
+                std::thread::spawn(move || drop(child)).join().unwrap();
+                drop(root);
+                for _ in 0..4 {
+                    fastrace::flush();
+                }
+                let recs = std::mem::take(&mut *rep.0.lock().unwrap());
+                let mut names: Vec<&str> = recs.iter().filter(|r| r.trace_id.0 == 0xa000 + round).map(|r| &*r.name).collect();
+                names.sort();
+                if names != ["watched-child", "watched-root"] {
+                    panic!("round {}: the watched trace was delivered as {:?} after ten other threads had queued 100000 commands in the same interval", round, names);
+                }
+                whole += 1;
+            }
+            extra = json!({"rounds": 3, "traces_delivered_whole": whole, "commands_queued_by_other_threads_per_round": 100_000});
+        }
+        "many-threads-span-ids" => {
+            // 66000 short-lived threads create one span each: span ids of different threads must
+            // not repeat. Ids are (random 32-bit thread prefix, counter), so a handful of chance
+            // collisions is expected at this scale (n^2 / 2^33, about 0.5 here); a prefix scheme that
+            // wraps or repeats produces hundreds. The verdict is a count threshold.
+            let rep = install(false);
+            let root = Arc::new(Span::root("server", SpanContext::new(TraceId(0xc001), SpanId(1))));
+            let n = 66_000usize;
+            let mut ids: Vec<u64> = Vec::with_capacity(n);
+            let mut batch = vec![];
+            for i in 0..n {
+                let root = root.clone();
+                batch.push(std::thread::spawn(move || {
+                    let s = Span::enter_with_parent("request", &root);
+                    SpanContext::from_span(&s).map(|c| c.span_id.0).unwrap_or(0)
+                }));
+                if batch.len() == 64 || i + 1 == n {
+                    for h in batch.drain(..) {
+                        ids.push(h.join().unwrap());
+                    }
+                }
+            }
+            let zero = ids.iter().filter(|i| **i == 0).count();
+            ids.sort_unstable();
+            let dup = ids.windows(2).filter(|w| w[0] == w[1]).count();
+            drop(root);
+            fastrace::flush();
+            let delivered = rep.0.lock().unwrap().len();
+            extra = json!({"threads": n, "duplicate_span_ids": dup, "zero_span_ids": zero, "records_delivered": delivered});
+            if zero > 0 {
+                panic!("{} of {} spans got the span id 0", zero, n);
+            }
+            if dup > 25 {
+                panic!("{} span ids were handed out twice among {} spans created on {} different threads (about 0.5 chance collisions are expected)", dup, n, n);
+            }
+        }
         "deep-backlog" => {
             // more finish signals parked in one episode than the ring has slots (10240): they must
             // all get through once the collector runs again, and later traces must be complete
